@@ -89,6 +89,12 @@ func c15(run *ev.Run, tier string) {
 		if r.P(1, 6) {
 			s.Deb.Arch, s.RPM.Arch, s.APK.Arch, s.IPK.Arch, s.ArchL.Arch = "debarch", "rpmarch", "apkarch", "ipkarch", "archarch"
 		}
+		if r.P(1, 5) {
+			// settings that travel in fields of their own, not in the name
+			s.IPK.ABIVersion = rng.Pick(r, []string{"1", "2.0", "17"})
+			s.RPM.Group, s.RPM.Summary = "Development/Tools", "summary"
+			s.Section, s.Priority = "utils", "optional"
+		}
 		s.RPM.BuildHost = "verif-host"
 		s.Contents = []*gen.Content{{Src: payload, Dst: "/opt/n/p.txt"}}
 		return s
@@ -280,6 +286,36 @@ func c15(run *ev.Run, tier string) {
 				run.Case(fmt.Sprintf("cli|no-infer|%s|%d", f, i), true)
 				if code != 0 || !isFormat(tgt2, other) {
 					run.Violate("C15/cli/"+f+"/extension-overrides-explicit-packager", map[string]any{"exit": code, "output": ev.Short(out, 300), "given_packager": other})
+				}
+			}
+		}
+	}
+	// (8) a build that fails leaves no file behind - not at an explicit target,
+	// not under the conventional name in a target directory or the current one
+	if bin := nfpmBin(run); bin != "" {
+		wd := filepath.Join(dir, "cli-fail")
+		_ = os.MkdirAll(wd, 0o755)
+		// the second entry is read after the first was already written
+		doc := "name: failing\narch: amd64\nversion: 1.0.0\nmaintainer: \"N <n@example.com>\"\ndescription: d\ncontents:\n  - src: " + payload + "\n    dst: /opt/n/a.txt\n  - src: " + payload + "\n    dst: /opt/n/b.txt\n    type: config\nscripts:\n  postinstall: " + filepath.Join(wd, "missing-script.sh") + "\n"
+		cfgp := filepath.Join(wd, "conf.yaml")
+		_ = os.WriteFile(cfgp, []byte(doc), 0o644)
+		for _, f := range formats {
+			for _, how := range []string{"file-target", "directory-target", "blank-target"} {
+				d := filepath.Join(wd, f+"-"+how)
+				_ = os.MkdirAll(d, 0o755)
+				args := []string{"package", "-f", cfgp, "-p", f}
+				switch how {
+				case "file-target":
+					args = append(args, "-t", filepath.Join(d, "out.pkg"))
+				case "directory-target":
+					args = append(args, "-t", d)
+				}
+				_, _, code, err := runCmd(nil, d, nil, bin, args...)
+				atomic.AddInt64(&cli, 1)
+				run.Case("cli|failing-build|"+f+"|"+how, true)
+				es, _ := os.ReadDir(d)
+				if err == nil && code != 0 && len(es) > 0 {
+					run.Violate("C15/cli/"+f+"/file-left-behind-by-a-failed-build/"+how, map[string]any{"exit": code, "files": es[0].Name()})
 				}
 			}
 		}
